@@ -24,6 +24,7 @@ import (
 	"context"
 	"fmt"
 	"reflect"
+	"runtime"
 	"sort"
 	"strconv"
 	"strings"
@@ -179,11 +180,37 @@ func runC13Locks(desc string) (string, bool) {
 		}
 		return c
 	}
+	// poisoned: a reference count is LOWER than the number of goroutines holding or waiting for the key (or
+	// their entry is gone).  The script stops there and nobody unlocks any more: the entry would be deleted
+	// while in use, Unlock would then release the mutex of ANOTHER entry, and an unlock of an unlocked
+	// sync.Mutex is a fatal error of the Go runtime, not a panic.  What was read is reported.  (A count
+	// that is too high only keeps entries: the script goes on.)
+	poisoned := false
 	record := func(acts []string) {
 		tab := c13LockTable(m)
 		tp := make([]string, len(tab))
 		for i, e := range tab {
 			tp[i] = fmt.Sprintf("(%d, %d)", e[0], e[1])
+			users := 0
+			for _, t := range th {
+				if (t.status == 1 || t.status == 2) && t.key == e[0] {
+					users++
+				}
+			}
+			if users > e[1] {
+				poisoned = true
+			}
+		}
+		for _, t := range th {
+			if t.status == 1 || t.status == 2 {
+				found := false
+				for _, e := range tab {
+					found = found || e[0] == t.key
+				}
+				if !found {
+					poisoned = true
+				}
+			}
 		}
 		sp := make([]string, n)
 		for i, t := range th {
@@ -219,7 +246,7 @@ func runC13Locks(desc string) (string, bool) {
 		record(acts)
 	}
 	for _, c := range cmds {
-		if len(c) < 2 || bad > 0 {
+		if len(c) < 2 || bad > 0 || poisoned {
 			continue
 		}
 		f := strings.Split(c[1:], ":")
@@ -278,7 +305,7 @@ func runC13Locks(desc string) (string, bool) {
 		}
 	}
 	// every goroutine leaves: afterwards nothing may be left in the map
-	for iter := 0; iter < 4*n+4 && bad == 0; iter++ {
+	for iter := 0; iter < 4*n+4 && bad == 0 && !poisoned; iter++ {
 		h := -1
 		for i, t := range th {
 			if t.status == 2 {
@@ -291,7 +318,7 @@ func runC13Locks(desc string) (string, bool) {
 		}
 		unlock(h)
 	}
-	if bad == 0 {
+	if bad == 0 && !poisoned {
 		for _, t := range th {
 			t.cmd <- c13LockCmd{op: 'Q'}
 		}
@@ -845,11 +872,19 @@ func (p *c13Run) opNest() {
 			case <-time.After(c13Watch):
 				p.hung = true
 			}
-			// witness: the copy holds a reference on the per-ID lock entry (it waits in Lock behind the handler)
+			// witness: the copy holds a reference on the per-ID lock entry (it waits in Lock behind the
+			// handler), or -- whatever the count says -- a goroutine is parked inside MutexMap.Lock
 			deadline := time.Now().Add(c13Watch)
-			for p.b.cc.VerifMsgIDLockCount(int32(mid)) < 2 {
+			buf := make([]byte, 1<<20)
+			for i := 0; p.b.cc.VerifMsgIDLockCount(int32(mid)) < 2; i++ {
+				if i%20 == 19 {
+					if n := runtime.Stack(buf, true); bytes.Contains(buf[:n], []byte("client.(*MutexMap).Lock(")) {
+						break
+					}
+				}
 				if time.Now().After(deadline) {
 					p.flags = append(p.flags, "nest: the copy never reached the per-ID lock")
+					p.hung = true // (later histories use the short watchdog)
 					break
 				}
 				time.Sleep(50 * time.Microsecond)
